@@ -134,8 +134,13 @@ func (v *Vue) evalSlot(ctx VueContext, node *html.Node, slotScope *SlotScope) ([
 	if inheritedSlotScopeData, ok := ctx.stack.EnvMap()["__slotScope__"]; ok {
 		if inheritedSlotScope, ok := inheritedSlotScopeData.(*SlotScope); ok {
 			if slotContent := inheritedSlotScope.GetSlot(slotName); slotContent != nil {
-				// Use the inherited slot content directly (already parsed as DOM nodes)
-				return slotContent.Nodes, nil
+				// Use the inherited slot content (already parsed as DOM nodes);
+				// every use of the slot gets nodes of its own.
+				nodes := make([]*html.Node, 0, len(slotContent.Nodes))
+				for _, n := range slotContent.Nodes {
+					nodes = append(nodes, helpers.DeepCloneNode(n))
+				}
+				return nodes, nil
 			}
 		}
 	}
